@@ -82,6 +82,8 @@ THEOREMS = [
     "OllamaVerif.C19.prompt_in_order_inplace",
     "OllamaVerif.C19.prompt_in_order_header",
     "OllamaVerif.C19.prompt_in_order_legacy",
+    "OllamaVerif.Prompt.scanTags_renderPieces",
+    "OllamaVerif.C19.runner_scan_is_tags",
     "OllamaVerif.Tie.C19.image_tokens_and_guard_plain",
     "OllamaVerif.Tie.C19.image_tokens_and_guard_mllama",
     "OllamaVerif.Tie.C19.image_tokens_projector_nil_vs_empty",
